@@ -61,7 +61,7 @@ class MaxPoolND(Operation):
         stride = (
             np.array([stride] * len(pool))
             if isinstance(stride, Integral)
-            else np.asarray(stride, dtype=int)
+            else np.asarray(stride)  # (no cast: non-integers must not be truncated)
         )
         assert len(stride) == len(pool) and all(
             s >= 1 and isinstance(s, Integral) for s in stride
